@@ -170,15 +170,15 @@ func corrC03(r *Run) {
 	nStreams := r.N(60, 1500)
 	caseBudget := r.N(260, 4000)
 	bigBudget := r.N(8, 300)
-	vol := &pduVolume{}
+	vol := &pduVolume{maxLen: 1500}
 	defer vol.diff(r)
 	volN := 0
 	emit := func(data []byte, sched []int, obs []readObs, what string) {
 		if caseBudget <= 0 {
 			return
 		}
-		if len(data) > 2500 { // streams of several KiB are slow to parse inside coqc: a fixed number per run
-			if bigBudget <= 0 {
+		if len(data) > 2500 { // streams of several KiB are slow to parse inside coqc: a fixed number per run, none above 6500 octets
+			if bigBudget <= 0 || len(data) > 6500 {
 				return
 			}
 			bigBudget--
